@@ -219,20 +219,23 @@ def gen_case(rnd, idx, forced_ctx=None, forced_root=None, n=None):
     return files, expected, info
 
 
-def declared(out, mode):
-    """-> {name: count} of project type declarations in types.ts (Params family excluded)"""
+def declared(out, mode, keep=()):
+    """-> {name: count} of project type declarations in types.ts. The generated parameter objects (<Command>Params) are left out;
+    `keep` names the project's own types, which count even when they are called ...Params themselves"""
     cnt = {}
+    keep = set(keep)
+    is_param_object = lambda n: n.endswith("Params") and n not in keep
     if mode == "none":
         for it in out.items("types.ts"):
-            if it["kind"] in ("interface", "type") and not it["name"].endswith("Params"):
+            if it["kind"] in ("interface", "type") and not is_param_object(it["name"]):
                 cnt[it["name"]] = cnt.get(it["name"], 0) + 1
     else:
         schemas = {}
         aliases = {}
         for it in out.items("types.ts"):
-            if it["kind"] == "const" and it["name"].endswith("Schema") and not it["name"].endswith("ParamsSchema"):
+            if it["kind"] == "const" and it["name"].endswith("Schema") and not is_param_object(it["name"][:-6]):
                 schemas[it["name"][:-6]] = schemas.get(it["name"][:-6], 0) + 1
-            elif it["kind"] in ("type", "interface") and not it["name"].endswith("Params"):
+            elif it["kind"] in ("type", "interface") and not is_param_object(it["name"]):
                 aliases[it["name"]] = aliases.get(it["name"], 0) + 1
         for n in set(schemas) | set(aliases):
             cnt[n] = max(schemas.get(n, 0), aliases.get(n, 0))
@@ -258,7 +261,7 @@ def run_case(a):
             pf = common.parse_fault(out, ("types.ts",)) or ("types.ts missing", "types.ts was not written")
             return {"viol": [("C07 types.ts-does-not-parse " + pf[0], pf[1])], "n": info["n"], "edges": info["edges"], "files": info["files"], "cycle": info["has_cycle"],
                     "expected": len(expected), "decoys": len(info["all"]) - len(expected), "witness": proj.witness_of(files, mode)}
-        got = declared(out, mode)
+        got = declared(out, mode, keep=info["all"])
         viol = []
         for nm in sorted(expected):
             if nm not in got:
